@@ -509,7 +509,7 @@ pub fn cases(tier: Tier, seed: u64) -> Vec<Case> {
         }
         if tier == Tier::Thorough {
             let mut k = seed.wrapping_add(kind as u64).wrapping_mul(0x9E3779B97F4A7C15) | 1;
-            for _ in 0..12 {
+            for _ in 0..6 {
                 let mut steps = vec![];
                 for _ in 0..(1 + k % 4) {
                     k = k.wrapping_mul(6364136223846793005).wrapping_add(1442695040888963407);
@@ -533,7 +533,7 @@ impl SubCheck for OutageCheck {
         "outage"
     }
     fn rule(&self) -> String {
-        "fault sequences against real processes: proxy A (idle timeout 3 s) routes through an upstream: a second real redproxy B for connector kinds {http, socks5, socks4, quic with its shared cached connection, loadbalance[http, socks5]}, the origin itself for the direct connector, and harness-implemented HTTP-CONNECT / SOCKS5 proxies that can stall inside the upstream handshake and die with RST; faults {SIGKILL (fake: listener and all connections dropped with RST) + restart on the same ports after 0 / 0.1 / 0.7 / 1 / 5 s, SIGSTOP for 0.5-3.5 s then SIGCONT (fake: accept, read the request, never answer, then RST), a long outage during which two requests are made one after the other (the second finds a closed cached connection and an upstream that is still down) before the restart} in phases {idle without prior traffic, idle after traffic, a tunnel open mid-transfer, a request started during the outage}, 2 outages per sequence (quick: 2 sequences per kind; thorough: +12 generated sequences of 1-4 outages per kind), while a reference echo tunnel through the direct connector runs a round trip every 150 ms; oracle: a request while the upstream is down fails in bounded time (45 s), a tunnel open across a kill is closed within 10 s, after the upstream is back some request among the next 30 (1.5 s apart) succeeds and the following three as well, the reference tunnel never loses a byte or waits more than 2.5 s; non-trivial = a fault outside the idle-no-traffic phase or >= 2 outages".into()
+        "fault sequences against real processes: proxy A (idle timeout 3 s) routes through an upstream: a second real redproxy B for connector kinds {http, socks5, socks4, quic with its shared cached connection, loadbalance[http, socks5]}, the origin itself for the direct connector, and harness-implemented HTTP-CONNECT / SOCKS5 proxies that can stall inside the upstream handshake and die with RST; faults {SIGKILL (fake: listener and all connections dropped with RST) + restart on the same ports after 0 / 0.1 / 0.7 / 1 / 5 s, SIGSTOP for 0.5-3.5 s then SIGCONT (fake: accept, read the request, never answer, then RST), a long outage during which two requests are made one after the other (the second finds a closed cached connection and an upstream that is still down) before the restart} in phases {idle without prior traffic, idle after traffic, a tunnel open mid-transfer, a request started during the outage}, 2 outages per sequence (quick: 2 sequences per kind; thorough: +6 generated sequences of 1-4 outages per kind), while a reference echo tunnel through the direct connector runs a round trip every 150 ms; oracle: a request while the upstream is down fails in bounded time (45 s), a tunnel open across a kill is closed within 10 s, after the upstream is back some request among the next 30 (1.5 s apart) succeeds and the following three as well, the reference tunnel never loses a byte or waits more than 2.5 s; non-trivial = a fault outside the idle-no-traffic phase or >= 2 outages".into()
     }
     fn run(&self, part: &mut Part) {
         let all = cases(part.tier, part.seed);
